@@ -561,6 +561,62 @@ let check_search line f =
      | _ -> cmp_line "MR" line [("model:mirror position accepted", "accepted", if a = "MIRROR-REJECTED" then "impl-rejected" else "model-rejected")])
   | _ -> failwith "search fields"
 
+(* ---------- C15 bot ---------- *)
+let unders s = String.map (fun c -> if c = '_' then ' ' else c) s
+let check_bot line f =
+  match f with
+  | ["BT"; "LOAD"; r] -> cmp_line "BT" line [("model:plugin loads", "loaded", r)]
+  | ["BT"; _; "TRAP"] -> cmp_line "BT" line [("spec:plugin never panics", "no-TRAP", "TRAP")]
+  | ["BT"; ops; res] ->
+    let opl = List.filter (fun x -> x <> "") (String.split_on_char ' ' ops) in
+    let resl = List.filter (fun x -> x <> "") (String.split_on_char ' ' res) in
+    if List.length opl <> List.length resl then cmp_line "BT" line [("model:result count", string_of_int (List.length opl), string_of_int (List.length resl))] else begin
+      let st = ref api_bot_init in
+      (* abstract spec: current rules-level position and the positions produced by accepted moves since the last set_board *)
+      let cur = ref api_spec_start in
+      let hist : position list ref = ref [] in
+      let diffs = ref [] in
+      let add w e g = if e <> g then diffs := (w, e, g) :: !diffs in
+      let step = ref 0 in
+      List.iter2 (fun op tok ->
+          incr step;
+          let rest = String.sub op 1 (String.length op - 1) in
+          let at w = Printf.sprintf "%s (call %d: %s)" w !step op in
+          match op.[0] with
+          | 's' ->
+            (match parse_model (unders rest) with
+             | Some b -> st := api_bot_set_board b; cur := api_abs b; hist := []; add (at "model:set_board") "." tok
+             | None -> add (at "model:set_board accepted") "accepted" "model-rejected")
+          | 'm' ->
+            let m = move_of_s rest in
+            let legal = api_spec_is_legal !cur m in
+            let (st', (v, t)) = api_bot_make_move !st m in
+            st := st';
+            add (at "model:make_move") (b01 v ^ b01 t) tok;
+            if legal then begin
+              let np = api_spec_make !cur m in
+              let occ = 1 + List.length (List.filter (fun q -> api_spec_same_position q np) !hist) in
+              hist := np :: !hist; cur := np;
+              add (at "spec:legal move applied; threefold flag exactly on the third occurrence since the board was set") ("1" ^ b01 (occ = 3)) tok
+            end else
+              add (at "spec:illegal move refused, flag clear") "00" tok
+          | 'b' ->
+            (match parse_model (unders tok) with
+             | Some b -> add (at "spec:reported board = reference successor") "1" (b01 (api_spec_pos_eqb (api_abs b) !cur));
+               add (at "model:board") (string_of_bytes (api_write_fen (api_bot_board !st))) (unders tok)
+             | None -> add (at "spec:reported board acceptable") "accepted" tok)
+          | 'e' ->
+            let k = int_of_string rest in
+            let (mv, sc) = api_bot_evaluate (n_of_int k) (api_nat_of_N (n_of_int (k + 2))) (api_nat_of_N (n_of_int 48)) !st in
+            add (at "model:evaluate") ((match mv with Some m -> move_s m | None -> "-") ^ "," ^ string_of_score sc) tok;
+            (match String.split_on_char ',' tok with
+             | mvs :: _ when mvs <> "-" -> add (at "spec:proposed move is legal") "1" (b01 (api_spec_is_legal !cur (move_of_s mvs)))
+             | _ -> ())
+          | _ -> ()) opl resl;
+      cmp_line "BT" line (List.rev !diffs)
+    end
+  | _ -> failwith "bot fields"
+
 (* ---------- C17 book ---------- *)
 let book_memo : (string, position option) Hashtbl.t = Hashtbl.create 40000
 let () = Hashtbl.replace book_memo "" (Some api_spec_start)
@@ -597,6 +653,7 @@ let dispatch line =
   | ("BK" | "BKS") :: _ -> check_book line f
   | "GI" :: _ -> check_gi line f
   | ("SR" | "MR") :: _ -> check_search line f
+  | "BT" :: _ -> check_bot line f
   | "DIST" :: _ -> ()
   | k :: _ -> bump ("UNKNOWN:" ^ k) 1; diff "UNKNOWN" k "" line
   | [] -> ()
